@@ -5,6 +5,7 @@ import (
 	"context"
 	"crypto/sha512"
 	"io"
+	"math"
 	"time"
 
 	"github.com/polydawn/refmt/misc"
@@ -131,6 +132,11 @@ func packZip(
 		// Flatten time to seconds.  The zip header stores whole seconds only, and the hash
 		//  and the serial form must describe the same thing (as in the tar transmat).
 		fmeta.Mtime = fmeta.Mtime.Truncate(time.Second)
+		// ... and only those a 32-bit unsigned count from 1970 can express (the extended timestamp field):
+		//  anything else would be hashed as it is and stored as something else, a ware nobody could ever fetch.
+		if sec := fmeta.Mtime.Unix(); sec < 0 || sec > math.MaxUint32 {
+			return Errorf(rio.ErrPackInvalid, "zip cannot store the mtime of %q (%s): use an mtime filter, or the tar format", fmeta.Name, fmeta.Mtime.UTC().Format(time.RFC3339))
+		}
 
 		// Flip our metadata to zip header format, and flush it.
 		zipHeader = new(zip.FileHeader)
